@@ -16,6 +16,8 @@ run_tests = '--no-tests' not in sys.argv
 rows = []
 for path in sorted(glob.glob(os.path.join(HERE, 'mutants', '*.json'))):
     name = os.path.basename(path)[:-5]
+    if name == 'RESULTS':
+        continue
     if args and not any(a in name for a in args):
         continue
     m = json.load(open(path))
